@@ -56,6 +56,14 @@ def suite_fonts(ctx, res, n):
     ops, meta = [], []
     # regression set: a coloured .notdef at each input position, per OT-SVG flavour (fixed seeds: positions 2, 1, 0)
     fixed = [fontgen.make_colored_notdef_case(sd, f) for f in ("untouchedsvg", "picosvg", "glyf_colr_1") for sd in (0, 1, 2)]
+    # the coloured .notdef given TWICE (a name the font has before any input is read): either the build refuses, or the font is valid
+    for f, sd in (("untouchedsvg", 1), ("untouchedsvgz", 2), ("picosvg", 0)):
+        c = fontgen.make_colored_notdef_case(sd, f)
+        i = c["glyph_names"].index(".notdef")
+        for key in ("svgs", "codepoints", "glyph_names"):
+            c[key] = list(c[key]) + [c[key][i]]
+        c["id"] += ":twice"
+        fixed.append(c)
     # different outlines, identical gradients: separate OT-SVG documents that must each define what they reference
     fixed += [fontgen.make_shared_gradient_case(ctx.rng.getrandbits(32), f) for f in ("picosvg", "picosvgz")]
     fixed += [fontgen.make_use_override_case(ctx.rng.getrandbits(32), "picosvg")]
